@@ -51,7 +51,9 @@ Alts == <<
   <<"references", <<Ref(1, "", "A,B.", "Consortium", "T", "J", "", "a remark"), Ref(2, "(bases 2 to 5; 7 to 9)", "", "", "", "Unpublished", "", "")>>>>,
   <<"references", <<Ref(1, "(bases 1 to 10)", "A,B.", "", "a title that\ncontinues on a second line", "J", "9", "remark\nsecond line")>>>>,
   <<"references", <<Ref(12, "(sites)", "A,B.", "", "T", "J", "", "")>>>>,
-  <<"comments", <<"one comment">>>>, <<"comments", <<"first\nsecond line", "another comment">>>>,
+  <<"comments", <<"one comment">>>>, <<"comments", <<"first paragraph\n\nsecond paragraph after a blank line">>>>,
+  <<"definition", "a definition\n\nwith a blank line">>, <<"extra", << <<"NOTE", "one\n\nthree">> >>>>,
+  <<"references", <<Ref(1, "(bases 1 to 10)", "A,B.", "", "T", "J", "", "remark para one\n\nremark para two")>>>>, <<"comments", <<"first\nsecond line", "another comment">>>>,
   <<"extra", << <<"FOO", "bar">> >>>>, <<"extra", << <<"PRIMARY", "line one\nline two">>, <<"BAZ", "">> >>>>,
   <<"region", <<2, 8>>>>,
   <<"len", 0>>, <<"len", 1>>, <<"len", 9>>, <<"len", 11>>, <<"len", 59>>, <<"len", 60>>, <<"len", 61>>, <<"len", 119>>, <<"len", 120>>, <<"len", 121>>,
